@@ -128,6 +128,8 @@ def scenarios() -> list[tuple]:
         if h == 3:
             for ph in phases[2:build_msgs - 1]:
                 out.append((h, "deadalt:1", ph))
+            # ... or the first hop's candidate list names, behind R2, an entry that is not a key at all
+            out.append((h, "deadalt:1g", ("build", 3)))
         # the same abandonment, but every relay/exit on the path also *wants* circuits of its own that it cannot
         # build (it knows no exit): its periodic do_circuits() takes the "creation failed" branch before the sweep
         for ph in phases:
@@ -185,6 +187,16 @@ def run_one(scn: tuple, faults: dict[int, str], seed: int):  # noqa: ANN201
                 if h == 3:
                     w.restrict("R1", ["R2"])
                     w.restrict("A1", ["R2"])
+            elif ini == "deadalt:1g":
+                w.restrict("O", ["R1", "X"])
+                w.restrict("R1", ["R2"])
+                real_pack = ov["R1"].serializer.pack
+
+                def pack_with_garbage(fmt, item, *a, **kw):  # noqa: ANN001, ANN002, ANN003, ANN202
+                    if fmt == "varlenH-list":
+                        item = [*item, b"\x01not-a-key"]
+                    return real_pack(fmt, item, *a, **kw)
+                ov["R1"].serializer.pack = pack_with_garbage
             else:
                 w.restrict("O", ["R1", "X"])
                 w.restrict("R1", ["R2", "A1"])
@@ -319,11 +331,14 @@ def _teardown(w: TunnelWorld, ini: str, cid: int) -> str:
         w.nodes[ini[5:]].endpoint.close()
         return f"{ini[5:]}-offline"
     if ini.startswith("deadalt:"):
-        c = w.ov["O"].circuits[cid]
-        pos = int(ini[8:])
-        hop = c.hops[pos] if len(c.hops) > pos else c.unverified_hop
-        name = next(n for n, node in w.nodes.items()
-                    if node.my_peer.public_key.key_to_bin() == hop.peer.public_key.key_to_bin())
+        c = w.ov["O"].circuits.get(cid)
+        pos = int(ini[8:9])
+        hop = None if c is None else (c.hops[pos] if len(c.hops) > pos else c.unverified_hop)
+        if hop is None:
+            name = "R2"       # the originator has already given the circuit up (1g on a correct tree)
+        else:
+            name = next(n for n, node in w.nodes.items()
+                        if node.my_peer.public_key.key_to_bin() == hop.peer.public_key.key_to_bin())
         w.nodes[name].endpoint.close()
         return f"{name}-offline(position {pos})"
     ov = w.ov[ini]
